@@ -23,7 +23,7 @@ MANIFEST = {
                 "the callee contracts and holds for all inputs (proof); (2) is checked for every line inside a 48-byte window (bounded: the string model's copy loop). (3) writer side (real text of BuildLog::RecordCommand and BuildLog::Restat against contract stubs of WriteEntry, stdio, Stat and ReplaceContent; a log of three records): "
                 "RecordCommand gives every output of the command - explicit and implicit - the record just written (last record wins, existing records updated in place, others untouched) and appends and flushes one line per output; "
                 "`-t restat` of all or of a subset changes only the mtime of the selected records, rewrites the record of EVERY output exactly once into a temporary file with the version header and replaces the log once, "
-                "and never on an error. NOT decided: which record wins when Load reads duplicates, Recompact (attempted: the solver did not finish), version handling, numeric round trip of a record line.",
+                "and never on an error. the entry-update statements of BuildLog::Load (sliced by line range) make the LAST line per output win whatever its mtime, and keep one record per output. NOT decided: Recompact (attempted: the solver did not finish), version handling, numeric round trip of a record line.",
         "design_ref": "DESIGN.md 5 C08",
     },
     "level_note": "trusted: cbmc 6.11 C++ front end; callee CONTRACT STUBS for memchr (first occurrence, via ghost facts), memmove, memset, fread (any short read), "
@@ -240,6 +240,9 @@ def _writer_jobs(tier, mutant):
     for sel in ((0, 1, 5) if tier == "quick" else (0, 1, 2, 3, 4, 5, 6, 7)):
         js.append(buildlogunit.job("BuildLog.Restat.contract.sel%d" % sel, "buildlog_writer.cc", ["OP=1", "NENT=3", "SEL=%d" % sel], mutant, canaries=2, weight=10.0,
                                    bound="a log of 3 records; restat of the subset mask %d (0 = all); Stat answers and every I/O failure symbolic" % sel))
+    for same in (1, 0):
+        js.append(buildlogunit.job("BuildLog.Load.entry_update.%s" % ("same_output" if same else "other_output"), "buildlog_loadupdate.cc", ["SAME=%d" % same], mutant, canaries=2 if same else 1, weight=30.0,
+                                   bound="two parsed lines (the second for the same / another output); all numeric fields symbolic"))
     return js
 
 
@@ -268,6 +271,7 @@ MUTANTS = [
     ("log_replaced_after_stat_error", _m("Restat", "      if (mtime == -1) {\n        fclose(f);\n        return false;\n      }", "      if (mtime == -1) {\n        continue;\n      }")),
     ("implicit_outputs_not_recorded", _m("RecordCommand", "out != edge->outputs_.end(); ++out) {", "out != edge->outputs_.end() - edge->implicit_outs_; ++out) {")),
     ("record_not_flushed", _m("RecordCommand", "      if (fflush(log_file_) != 0) {\n          return false;\n      }\n", "")),
+    ("largest_mtime_wins", _m("LoadUpdate", "    ++total_entry_count;\n", "    ++total_entry_count;\n    if (mtime < entry->mtime) continue;\n")),
     ("refill_overruns_buffer", _m("reader", "sizeof(buf_) - size_rest, file_);", "sizeof(buf_), file_);")),
     ("next_line_starts_on_newline", _m("reader", "line_start_ = line_end_ + 1;", "line_start_ = line_end_;")),
     ("rest_length_wrong", _m("reader", "size_t size_rest = (buf_end_ - buf_) - already_consumed;", "size_t size_rest = (buf_end_ - buf_);")),
@@ -297,7 +301,7 @@ def describe(tier):
             "the splitter is checked on lines inside a 48-byte window (pointer arithmetic is position-independent)",
             "Load's loop, the entries_ map (last record per output wins), sscanf of the version line, LOAD_NOT_FOUND on a wrong version, Recompact/Restat: outside the unit",
         ],
-        "silent": ["which record wins when Load reads duplicate lines", "recompaction keeps the latest record of live outputs (Recompact not under contract)",
+        "silent": ["recompaction keeps the latest record of live outputs (Recompact not under contract)",
                    "unsupported version discarded with a warning", "a merged line can only look out of date (needs hash semantics)"],
         "explanation": "Per-call contracts of the line reader and of the field splitter on sliced real text with callee contracts; loop-free, complete.",
     }
